@@ -776,7 +776,7 @@ func (c *Ctx) preconditionRejections(prefix string) {
 				"a function reachable from sync rejects an argument with a permanent error and no caller-side filter is recorded for it: a retry can never clear it")
 		}
 	}
-	c.Floor(prefix+"-precondition-rejections", n, 2)
+	c.Floor(prefix+"-precondition-rejections", n, 1)
 }
 
 // statusRetryShape: C09.5
